@@ -750,6 +750,18 @@ func (fc *FnCtx) runLoop(st *State, lp loopParts) []Outcome {
 					}
 				}
 			case OBreak:
+				if check {
+					// `loop N leave` clauses: the state in which a break statement leaves the loop
+					for i, cl := range c.loopClauses("leave", lp.ord) {
+						fc.headEnv, fc.headFresh = headSnap.env, headSnap.fresh
+						savedPos := lp.bodyPos
+						lp.bodyPos = lp.body.Rbrace - 1
+						t := trClause(o.St, cl)
+						lp.bodyPos = savedPos
+						fc.headEnv, fc.headFresh = nil, nil
+						fc.oblige(o.St, fmt.Sprintf("leave#%d/%s", lp.ord, label(i, cl)), "loop-body", c.tagsFor(cl), t, "state at a break out of the loop: "+cl.Text, lp.stmt)
+					}
+				}
 				outs = append(outs, Outcome{Kind: ONormal, St: o.St})
 			default:
 				outs = append(outs, o)
